@@ -115,29 +115,28 @@ def run(c, facts, tier):
     # the macro that defines the flags takes each value from `values::<same name>`
     mr = facts.macro_rules.get("bitflags")
     c.ob("C02.type", "permission_flags", "flag F has the value of constant F", mr is not None and "const$Flag=values::$Flag" in mr["raw"].replace(" ", ""), "bitflags! wrapper defines `const $Flag = values::$Flag`", nontrivial=False)
-    tl = codegen.table(facts, "scheme::target_scheme::compile_type_list_comp")
-    ok_t = False
-    det = ""
-    for r in tl:
+    # how a type list is tested: read from the Test::Type rows of the test table (wherever the code lives)
+    SIFMT = str(int(posix["S_IFMT"], 8)) if "S_IFMT" in posix else str(0o170000)
+    ok_t, det, njoin = False, "", 0
+    for r in trows:
+        if "Test::Type" not in r["cond"]:
+            continue
         for p in r["st"].buf:
-            mp = None
-            if p[0] == "join":
-                mp = p[1]
-                joiner = p[2]
-            elif p[0] == "h" and p[1].get("kind") in ("unwrap",) and isinstance(p[1].get("of"), dict):
-                pass
-            if mp is not None and mp.get("v") == "mapped":
+            if p[0] != "join":
+                continue
+            mp, joiner = p[1], p[2]
+            if mp.get("v") == "mapped":
                 for conds, v in mp["elems"]:
                     if v.get("v") == "str":
                         t = emit.scheme_tokens(emit.canon_parts(v["parts"]))
-                        ok_t = t == ["(", "=", "(", "logand", "(", "mode", ")", "{scheme::target_scheme::S_IFMT.bits()}", ")", "{$elem($@1).octal().bits()}", ")"] or (len(t) == 11 and t[:7] == ["(", "=", "(", "logand", "(", "mode", ")"] and "S_IFMT" in t[7] and "octal().bits()" in t[9])
+                        ok_t = len(t) == 11 and t[:7] == ["(", "=", "(", "logand", "(", "mode", ")"] and t[7] == SIFMT and "octal().bits()" in t[9] and t[8] == ")" and t[10] == ")"
                         det = " ".join(t)
                 txt = " ".join(r["tokens"])
                 ok_j = r["tokens"][:2] == ["(", "or"] and joiner == " "
-                c.ob("C02.type", "scheme::target_scheme::compile_type_list_comp", "several types are joined by (or …)", ok_j, "`%s` with separator %r" % (txt, joiner), nontrivial=False)
-    c.ob("C02.type", "scheme::target_scheme::compile_type_list_comp", "each type test is (= (logand (mode) S_IFMT) type-bits)", ok_t, "element template `%s`" % det)
-    st = facts.statics.get("scheme::target_scheme::S_IFMT")
-    c.ob("C02.type", "scheme::target_scheme", "the mask is S_IFMT", st is not None and rx.path_str(st["e"]) == "SFlag::S_IFMT", "static S_IFMT = %s" % (src(st["e"]) if st else None), nontrivial=False)
+                njoin += 1
+                c.ob("C02.type", T, "several types are joined by (or …)", ok_j, "`%s` with separator %r" % (txt, joiner), nontrivial=False)
+    c.ob("C02.type", T, "a type list is rendered by joining its elements", njoin >= 1, "%d joined renderings of Test::Type" % njoin, nontrivial=False)
+    c.ob("C02.type", T, "each type test is (= (logand (mode) S_IFMT) type-bits)", ok_t, "element template `%s` (S_IFMT = %s)" % (det, SIFMT))
     # C02.op / action / expression
     for key, rule, floor in (("<Operator as TargetScheme>::compile", "C02.op", 5), ("<Action as TargetScheme>::compile", "C02.action", 12), ("<Expression as TargetScheme>::compile", "C02.op", 5)):
         n = codegen.diff_tables(c, rule, key, codegen.plain(codegen.table(facts, key)), spec["tables"][key], "template", fields=("tokens", "outcome"))
